@@ -573,11 +573,23 @@ def run(ck):
                      "unpack:readonly-dir", "unpack:immutable-dir")
 
 
-# MUST_CATCH (self-test on scratch copies, see final report):
-#   1. WriteableSSKFileURI.get_readonly() returns self                    -> derivation-chain-mismatch, derived-cap-leaks-secret, ...claims-write-authority
-#   2. from_string: ALLEGED_READONLY_PREFIX branch leaves can_be_writeable -> alleged-readonly-parsed-as-writeable
-#   3. strip_prefix_for_ro drops 'imm.' in mutable directories             -> imm-marker-lost-in-storage
-#   4. ReadonlySSKFileURI.get_verify_cap() puts the readkey in the SI slot -> derivation-chain-mismatch, derived-cap-leaks-secret
-#   5. from_string: deep_immutable no longer clears can_be_mutable         -> alleged-immutable-parsed-as-mutable
-#   6. UnknownNode keeps a prefixed rw_uri as rw_uri                        -> unknown-node-exposes-write-uri
-#   7. MutableFileNode.get_write_uri() ignores is_readonly()                -> derived-node-claims-write-authority
+# MUST_CATCH -- planted in scratch copies (VF_REPO); unchanged tree exits 0, every break below exits 1:
+#   1. WriteableSSKFileURI.get_readonly() returns self              -> derivation-chain-mismatch, derived-cap-leaks-secret,
+#                                                                      derived-cap-claims-write-authority, derived-node-claims-write-authority
+#   2. MDMFDirectoryURI.get_readonly() returns self                 -> same keys + readonly-dir-yields-writeable-child
+#   3. from_string: ALLEGED_READONLY_PREFIX branch keeps can_be_writeable -> alleged-readonly-parsed-as-writeable
+#   4. strip_prefix_for_ro drops 'imm.' in mutable directories      -> imm-marker-lost-in-storage
+#   5. ReadonlySSKFileURI.get_verify_cap() puts the readkey in the SI slot -> derivation-chain-mismatch, derived-cap-leaks-secret
+#   6. from_string: deep_immutable no longer clears can_be_mutable  -> alleged-immutable-parsed-as-mutable
+#   7. from_string: 'imm.' only clears can_be_writeable             -> alleged-immutable-parsed-as-mutable
+#   8. UnknownNode strips 'ro.' and keeps the cap in rw_uri         -> unknown-node-exposes-write-uri
+#   9. UnknownNode does not add 'ro.' to an unprefixed ro slot      -> unknown-node-weakens-alleged-prefix
+#  10. UnknownNode (deep-immutable) does not upgrade 'ro.' to 'imm.' -> unknown-node-not-imm-in-immutable-context
+#  11. UnknownNode (deep-immutable) both-slots error removed + rw kept -> unknown-node-exposes-write-uri
+#  12. MutableFileNode.get_write_uri() ignores is_readonly()        -> derived-node-claims-write-authority
+#  13. ssk_storage_index_hash uses the datakey tag                  -> derivation-chain-mismatch
+#  14. DirectoryNode._unpack_contents decrypts rw caps for RO dirs  -> readonly-dir-yields-writeable-child
+#  15. CHKFileURI.get_verify_cap() passes the key as storage index  -> derivation-chain-mismatch, derived-cap-leaks-secret
+#  16. NodeMaker memokey ignores deep_immutable                     -> alleged-immutable-parsed-as-mutable
+#  inert (equivalent mutant, exit 0): "deep-immutable branch assigns rw_uri = given_rw_uri" alone -- given_rw_uri is
+#  always None there because the earlier branches already returned or moved it.
